@@ -98,7 +98,9 @@ impl Board {
     }
 
     fn parse_board(board: &mut Board, s: &str) -> Result<(), ()> {
+        let mut ranks = 0;
         for (rank, row) in s.rsplit('/').enumerate() {
+            ranks += 1;
             let rank = Rank::try_index(rank).ok_or(())?;
             let mut file = 0;
             for p in row.chars() {
@@ -122,6 +124,9 @@ impl Board {
             if file != File::NUM {
                 return Err(());
             }
+        }
+        if ranks != Rank::NUM {
+            return Err(());
         }
         Ok(())
     }
